@@ -137,6 +137,10 @@ func (t *totality) run() {
 					}
 					nOk++
 					key := fb.Name + ": " + types.ExprString(e)
+					if p.okKeptInLocal(fb, identOf(e.X)) {
+						c.Unk(R("okdrop"), key, e.Pos(), types.ExprString(e.X)+" comes from a comma-ok assertion whose ok result is folded into another boolean: whether that boolean is tested on this path is not followed")
+						return
+					}
 					c.Bad(R("okdrop"), key, e.Pos(), types.ExprString(e.X)+" comes from a comma-ok assertion whose ok result is discarded or untested on this path; it may be nil here")
 				}
 			case *ast.CallExpr:
@@ -723,4 +727,49 @@ func (t *totality) builderText(fb funcBody, x ast.Expr) (min int, attained bool,
 	}
 	walk(fb.Body.List, false, false)
 	return min, attained, true
+}
+
+// okKeptInLocal: x was defined by `x, ok := v.(T)` and that ok is used on the
+// right-hand side of another assignment (hoisted into a boolean local).
+func (p *Program) okKeptInLocal(fb funcBody, x *ast.Ident) bool {
+	if x == nil {
+		return false
+	}
+	xo := p.Info.ObjectOf(x)
+	var okObj types.Object
+	ast.Inspect(fb.Body, func(n ast.Node) bool {
+		as, ok := n.(*ast.AssignStmt)
+		if !ok || len(as.Lhs) != 2 || len(as.Rhs) != 1 {
+			return true
+		}
+		if _, isTA := ast.Unparen(as.Rhs[0]).(*ast.TypeAssertExpr); !isTA {
+			return true
+		}
+		if id := identOf(as.Lhs[0]); id != nil && p.Info.ObjectOf(id) == xo {
+			if id2 := identOf(as.Lhs[1]); id2 != nil && id2.Name != "_" {
+				okObj = p.Info.ObjectOf(id2)
+			}
+		}
+		return true
+	})
+	if okObj == nil {
+		return false
+	}
+	kept := false
+	ast.Inspect(fb.Body, func(n ast.Node) bool {
+		as, ok := n.(*ast.AssignStmt)
+		if !ok {
+			return true
+		}
+		for _, r := range as.Rhs {
+			ast.Inspect(r, func(m ast.Node) bool {
+				if id, ok := m.(*ast.Ident); ok && p.Info.ObjectOf(id) == okObj {
+					kept = true
+				}
+				return true
+			})
+		}
+		return true
+	})
+	return kept
 }
